@@ -1,6 +1,8 @@
 (* Transcription of src/algorithms/community/louvain.rs as it is after the
-   repairs of F16 (directed gain counts in- and out-edges) and F17 (candidate
-   communities scanned own-first then by ascending id; sums in a fixed order).
+   repairs of F16 (directed gain counts in- and out-edges), F17 (candidate
+   communities scanned own-first then by ascending id; sums in a fixed order)
+   and F23 (a weighted call on a graph with a negative weight is answered with
+   InvalidArgument before anything else is done).
    The working graphs are [gstate nat (list nat)] (Graph<usize, HashSet<usize>>).
    Numbers are exact rationals.  The seeded shuffle is an explicit input: a
    table [perms] whose k-th row (k >= 1) is the order in which
@@ -415,11 +417,23 @@ Section Entry.
                       omapM (fun u => unwrap_at "louvain.rs:reverse_node_map unwrap" (lookup Nat.eqb u rev)) hs)
                    lvl) levels.
 
+  (* louvain.rs louvain_partitions, first statement (repair of F23):
+     `weighted && graph.get_all_edges().iter().any(|e| e.weight < 0.0)`; the comparison is
+     false for NaN, so an edge without weight does not count.  `any` over the edge HashMap
+     is a boolean: its value does not depend on the iteration order. *)
+  Definition weight_negb (w : weight) : bool :=
+    match w with Some z => Z.ltb z 0 | None => false end.
+  Definition has_negative_weight (g : gstate T A) : bool :=
+    existsb (fun e : edge T A => weight_negb (ew e)) (get_all_edges g).
+  Definition negative_weight_guard (g : gstate T A) (weighted : bool) : bool :=
+    weighted && has_negative_weight g.
+
   (* louvain.rs louvain_partitions.  [thr] and [resolution] are the effective
      values (after unwrap_or).  Result: the levels and the tie flag. *)
   Definition louvain_partitions_t (level_fuel sweep_fuel : nat) (g : gstate T A) (weighted : bool)
              (resolution thr : Q) (perms : list (list nat))
     : outcome (list (list (list T)) * bool) :=
+    if negative_weight_guard g weighted then Err InvalidArgument else
     let node_map := node_map_of g in
     do graphu <- convert_graph g weighted node_map;
     let partition := map_node_names_to_hashsets graphu in
